@@ -7,6 +7,7 @@ import (
 	"errors"
 	"fmt"
 	"math/big"
+	"os"
 	"reflect"
 	"runtime"
 	"sort"
@@ -470,10 +471,19 @@ func (s *storeSim) checkRadius(kind string, v *dbView) {
 		for i := range rid {
 			rid[i] = ssz[i] ^ s.nodeID[i]
 		}
-		if _, isKey := v.items[rid]; isKey {
-			w.violate("C06", "radius-grew-byte-order", "radius grew from %s to %s: it is the distance %x of a retained item decoded little-endian", s.lastRadius.Hex(), rad.Hex(), ssz)
+		// (the item may have been dropped again by a later prune of the same batch that ran off the end
+		// of the store without touching the radius: any id ever put counts)
+		if _, isKey := s.ever[rid]; isKey {
+			w.violate("C06", "radius-grew-byte-order", "radius grew from %s to %s: it is the distance %x of a stored item decoded little-endian", s.lastRadius.Hex(), rad.Hex(), ssz)
 		} else {
 			w.violate("C06", "radius-grew", "after %s#%d: radius grew from %s to %s", kind, s.opIdx, s.lastRadius.Hex(), rad.Hex())
+			if os.Getenv("VERIF_DEBUG") != "" {
+				for id := range v.items {
+					d := distBytes(id, s.nodeID)
+					fmt.Fprintf(os.Stderr, "retained dist %x\n", d[:])
+				}
+				fmt.Fprintf(os.Stderr, "radius ssz %x\n", ssz)
+			}
 		}
 	}
 	s.lastRadius = rad.Clone()
